@@ -838,9 +838,9 @@ def check_C03(tier, seed):
 
 
 def valid_variant(rnd, env, m, split=False):
-    no_req = lambda desc: not any(f.label == 'REQ' for f in desc.fields)
+    ok = lambda desc: casegen.splittable(env, desc)
     o = casegen.Opts(rnd, shuffle=rnd.random() < 0.7, pad=rnd.random() < 0.5, repack=rnd.random() < 0.6,
-                     split=split, stale=rnd.random() < 0.5, unknown=rnd.random() < 0.4, split_ok=no_req)
+                     split=split, stale=rnd.random() < 0.5, unknown=rnd.random() < 0.4, split_ok=ok)
     return casegen.encode(env, m, o), o
 
 
